@@ -119,6 +119,16 @@ def _(value: Flag):
     return " | ".join(f"{name}.{flag.name}" for flag in type(value) if flag in value)
 
 
+@customize_repr
+def _(value: complex):
+    # repr(1+2j) is "(1+2j)", the parentheses are not part of the ast node
+    # and would be added again with every update
+    result = real_repr(value)
+    if result.startswith("(") and result.endswith(")"):
+        result = result[1:-1]
+    return result
+
+
 def sort_set_values(set_values):
     is_sorted = False
     try:
